@@ -73,11 +73,12 @@ void Acceptor::handleRead()
   }
   else
   {
+    int savedErrno = errno;  // the logger's output function may change errno
     LOG_SYSERR << "in Acceptor::handleRead";
     // Read the section named "The special problem of
     // accept()ing when you can't" in libev's doc.
     // By Marc Lehmann, author of libev.
-    if (errno == EMFILE)
+    if (savedErrno == EMFILE)
     {
       ::close(idleFd_);
       idleFd_ = ::accept(acceptSocket_.fd(), NULL, NULL);
